@@ -440,6 +440,8 @@ def _shared_source(cx, mu, kind, axis, members, tag="sh", name="shared"):
         m = symm(cx, tag + "_m", n)
         for i in range(n):
             cx.assume(m[i][i] >= 0)
+        if n == 2:
+            cx.assume(m[0][0] * m[1][1] - m[0][1] * m[0][1] >= 0)  # a covariance matrix is positive semi-definite
         mu.mf.add_matrix_error([list(r) for r in m], "cov", fits=list(members), name=name, relative=(kind == "MCR"), **ax)
         return [[m[i][j] * (ref[i] * ref[j] if kind == "MCR" else 1) for j in range(n)] for i in range(n)]
     if kind == "MK":
@@ -658,8 +660,8 @@ def scenarios(tier, seed):
         for n in (1, 2):
             if n == 1 and len([k for k in keys if M[k][0] in ("xy", "indexed")]) > 3:
                 continue
-            if q and n == 2 and variant == "read-first" and axis == "x":
-                continue  # symbolic minimum over four x uncertainties after a cached read: slow -> thorough tier
+            if q and n == 2 and variant == "read-first":
+                continue  # long symbolic terms after a cached read (5 min per scenario): thorough tier
             nm = "shared/%s/%s-%s-%s/%s/n%d" % ("+".join(keys), kind, axis, "".join(map(str, members)), variant, n)
             S.append(Scenario(nm, sc_shared, family="shared/%s/%s" % (kind, variant), params=dict(keys=keys, kind=kind, axis=axis, members=members, variant=variant, n=n)))
     S.append(Scenario("twin/shared-cov-is-not-block-diagonal", sc_twin, twin=True))
